@@ -92,8 +92,8 @@ PROPS = {
     },
     "C08": {
         "title": "RESP encoding and decoding round-trip, independent of stream chunking",
-        "rules": [k3.s4_resp_tag_tables, k4.v3_read_frame_eof, k4.v2_parse_frame, k4.kdec_decimal_buffer, k4.v6_write_frame_flushes, k9.s18_encoder_sequence],
-        "decides": "encoder/parser/checker tag tables mutually inverse incl. the Null literal; EOF inside a frame ⇒ error, at a boundary ⇒ clean end; Incomplete ⇒ read more; consumed = checked length, buffer never replaced; decimal scratch buffer ≥ 20 bytes; frames flushed; the stream is read only after the buffer was tried; Ok(None) only on Incomplete; no partial-write API; per frame kind the encoder emits type byte, text/decimal, CRLF, payload, CRLF in the RESP order, the bulk length is the payload's own length and the array count the number of items written; write_decimal sends exactly the formatted bytes",
+        "rules": [k3.s4_resp_tag_tables, k4.v3_read_frame_eof, k4.v2_parse_frame, k4.kdec_decimal_buffer, k4.v6_write_frame_flushes, k9.s18_encoder_sequence, k9.v8_who_says_incomplete],
+        "decides": "encoder/parser/checker tag tables mutually inverse incl. the Null literal; EOF inside a frame ⇒ error, at a boundary ⇒ clean end; Incomplete ⇒ read more; consumed = checked length, buffer never replaced; decimal scratch buffer ≥ 20 bytes; frames flushed; the stream is read only after the buffer was tried; Ok(None) only on Incomplete; no partial-write API; per frame kind the encoder emits type byte, text/decimal, CRLF, payload, CRLF in the RESP order, the bulk length is the payload's own length and the array count the number of items written; write_decimal sends exactly the formatted bytes; Incomplete is constructed only at the reviewed byte-shortage tests of the reader helpers — check declares nothing incomplete on its own",
         "not_decided": "round-trip equality and 'every strict prefix is incomplete' as universally quantified statements over encodings",
     },
     "C09": {
@@ -116,8 +116,8 @@ PROPS = {
     },
     "C12": {
         "title": "Hint files are only an accelerator: recovery with or without them agrees",
-        "rules": [k3.s1_roles, k2m.s7_s8_merge_sets, k3.s2_live_vs_recovery, k4.v5_hint_fallback, k5.ghint_hint_validation, k2m.p4_merge_per_entry_order, k5.e2_merge_errors_abort, k5.o1_recovery_order, k9.s15_position_tracking, k9.s16_file_names, k9.s22_one_codec],
-        "decides": "hint record fields mirror the re-pointed index entry by role; hint n describes data n; the hint loader does to the index what the scanner does for live records; only NotFound falls back to the scan of the same id; admission boundary includes the last record; merge aborts on a failed hint write; recovery order; the scan path derives (len, pos) from the reader's real positions; a hint file is found under the id of its data file with a different extension; one codec for data and hint records",
+        "rules": [k3.s1_roles, k2m.s7_s8_merge_sets, k3.s2_live_vs_recovery, k4.v5_hint_fallback, k5.ghint_hint_validation, k2m.p4_merge_per_entry_order, k5.e2_merge_errors_abort, k5.o1_recovery_order, k9.s15_position_tracking, k9.s16_file_names, k9.s22_one_codec, k2m.p5_merge_outputs_before_unlink, k2.p19_sync_chain],
+        "decides": "hint record fields mirror the re-pointed index entry by role; hint n describes data n; the hint loader does to the index what the scanner does for live records; only NotFound falls back to the scan of the same id; admission boundary includes the last record; merge aborts on a failed hint write; recovery order; the scan path derives (len, pos) from the reader's real positions; a hint file is found under the id of its data file with a different extension; one codec for data and hint records; a merge's hint output is flushed and fsynced (LogWriter::sync reaches File::sync_all) before the inputs it indexes are removed — the hint file of a generation is never shorter than its data file",
         "not_decided": "that offsets written equal offsets a scan computes (run-time values)",
     },
     "C13": {
@@ -141,14 +141,14 @@ PROPS = {
     },
     "C16": {
         "title": "Graceful shutdown terminates, keeps acknowledged data, and tears no reply",
-        "rules": [k2s.p9_server_shutdown_handshake, k2s.p12_handler_loop, k4.v3_read_frame_eof, k2s.p10_accept_loop, k4.v6_write_frame_flushes, k8.p20_shutdown_helper, k8.p10b_accept_backoff, k9.b1_server_binary_lifetime, k9.p12b_read_error_ends_handler],
-        "decides": "run(): notify, drop own completion sender, then wait, on every path; reading is raced with shutdown, applying a command is not; EOF mid-frame is an error path; every handler holds a completion sender and a subscription; replies are flushed; the Shutdown helper means what it says; accept back-off; no SO_LINGER on connections; in the server binary the store outlives `server.run().await` and the server's handle is a handle of that store; a handler never loops back to read_frame on an error (it would never see the shutdown)",
+        "rules": [k2s.p9_server_shutdown_handshake, k2s.p12_handler_loop, k4.v3_read_frame_eof, k2s.p10_accept_loop, k4.v6_write_frame_flushes, k8.p20_shutdown_helper, k8.p10b_accept_backoff, k9.b1_server_binary_lifetime, k9.p12b_read_error_ends_handler, k9.w8_channels_carry_no_messages],
+        "decides": "run(): notify, drop own completion sender, then wait, on every path; reading is raced with shutdown, applying a command is not; EOF mid-frame is an error path; every handler holds a completion sender and a subscription; replies are flushed; the Shutdown helper means what it says; accept back-off; no SO_LINGER on connections; in the server binary the store outlives `server.run().await` and the server's handle is a handle of that store; a handler never loops back to read_frame on an error (it would never see the shutdown); nothing is ever sent on the completion/notification channels, so the server's final recv() returns only when every handler is gone",
         "not_decided": "bounded time; a client that never reads its replies",
     },
     "C17": {
         "title": "A closed store rejects all use and stops its background worker",
-        "rules": [k2.p7_closed_check, k2s.p8_background_worker, k2s.p15_interval_loops, k8.p20_shutdown_helper],
-        "decides": "every Handle operation reaching writer/readers is dominated by the closed check (method set computed); Drop closes; the worker drops its own sender/handle before blocking; both loops race their sleep with shutdown and leave on it; the Shutdown helper means what it says",
+        "rules": [k2.p7_closed_check, k2s.p8_background_worker, k2s.p15_interval_loops, k8.p20_shutdown_helper, k9.w8_channels_carry_no_messages, k5.o1_recovery_order],
+        "decides": "every Handle operation reaching writer/readers is dominated by the closed check (method set computed); Drop closes; the worker drops its own sender/handle before blocking; both loops race their sleep with shutdown and leave on it; the Shutdown helper means what it says; the worker's shutdown channel carries no messages (only its closing counts); the next open derives the new active id from every data file present (max + 1), so a directory closed without writes opens again",
         "not_decided": "thread and descriptor counts after N cycles",
     },
     "C18": {
@@ -165,8 +165,8 @@ PROPS = {
     },
     "C20": {
         "title": "A failed disk operation is reported and leaves the store consistent",
-        "rules": [k5.e1_no_dropped_result, controls.control("E1"), k5.e2_merge_errors_abort, k2m.p5_merge_outputs_before_unlink, k2.p13_writer_identity_pair, k2.p3_publish_after_append, k2.p1_append_flushes, k2m.s7_s8_merge_sets],
-        "decides": "no storage Result is dropped; no buffered output is left to Drop's error-swallowing flush before unlink/Ok; active_fileid and writer change together or not at all on every error path; the index is touched only on the Ok edge of the append; flush errors of append are propagated; merge aborts on the first failed disk operation (an error that is only logged does not count); hint after data so that a failed create leaves no orphan hint",
+        "rules": [k5.e1_no_dropped_result, controls.control("E1"), k5.e2_merge_errors_abort, k2m.p5_merge_outputs_before_unlink, k2.p13_writer_identity_pair, k2.p3_publish_after_append, k2.p1_append_flushes, k2m.s7_s8_merge_sets, k9.s15_position_tracking],
+        "decides": "no storage Result is dropped; no buffered output is left to Drop's error-swallowing flush before unlink/Ok; active_fileid and writer change together or not at all on every error path; the index is touched only on the Ok edge of the append; flush errors of append are propagated; merge aborts on the first failed disk operation (an error that is only logged does not count); hint after data so that a failed create leaves no orphan hint; the position an append reports is the tracked count of bytes handed to the buffered writer (bytes of a failed flush that are still buffered are counted, they precede the next record)",
         "not_decided": "the effect of each errno as behaviour; history-shaped fault defects D11/D12 (DESIGN.md section 6)",
     },
 }
